@@ -35,6 +35,7 @@ type c02Case struct {
 	ForeignInter  bool     `json:"foreign_intermediate"` // the foreign CA is handed over as an additional intermediate
 	MultiValued   bool     `json:"multi_valued"`         // constraint attributes with several values in non-sorted order
 	ExplicitRoots bool     `json:"explicit_roots"`       // C10 only: the constraint names all layout roots (two, descending order)
+	StepName      string   `json:"step_name"`            // name of the step under test ("" = s0)
 	Repeats       int      `json:"repeats"`
 }
 
@@ -50,8 +51,11 @@ type c02Builder struct {
 	c c02Case
 }
 
+// c02Step is the name of the step whose link population is generated.
+var c02Step = "s0"
+
 func c02Link(tag string) *hx.MLink {
-	return &hx.MLink{Type: "link", Name: "s0", Materials: hx.MArtifacts{}, Products: hx.ArtifactsOf(map[string]string{"out.txt": "payload"}),
+	return &hx.MLink{Type: "link", Name: c02Step, Materials: hx.MArtifacts{}, Products: hx.ArtifactsOf(map[string]string{"out.txt": "payload"}),
 		ByProducts: hx.MObj{"return-value": hx.MVal{K: "i", I: 0}}, Command: []string{"build"}, Environment: hx.MObj{"tag": hx.MVal{K: "s", S: tag}}}
 }
 
@@ -62,7 +66,7 @@ func c02File(tag, nameKey string, wrapper string, sigs ...hx.WSig) hx.WMetaFile 
 	} else {
 		id = strings.TrimPrefix(nameKey, "hex:")
 	}
-	return hx.WMetaFile{Name: hx.LinkFileName("s0", id), Wrapper: wrapper, Meta: hx.MMeta{Link: c02Link(tag)}, Sigs: sigs}
+	return hx.WMetaFile{Name: hx.LinkFileName(c02Step, id), Wrapper: wrapper, Meta: hx.MMeta{Link: c02Link(tag)}, Sigs: sigs}
 }
 
 func certChainOK(c c02Case) bool { return c.Intermediate != "none" }
@@ -149,7 +153,7 @@ func init() {
 	// the certificate link of leaf1 copied under another name; the forged leading entry carries leaf1's certificate
 	c02Register(c02Kind{name: "dup-cert:leaf1",
 		file: func(b *c02Builder) hx.WMetaFile {
-			return hx.WMetaFile{Name: hx.LinkFileName("s0", "deadbee1"), Wrapper: "legacy", Meta: hx.MMeta{Link: c02Link("dup-cert-leaf1")},
+			return hx.WMetaFile{Name: hx.LinkFileName(c02Step, "deadbee1"), Wrapper: "legacy", Meta: hx.MMeta{Link: c02Link("dup-cert-leaf1")},
 				Sigs: []hx.WSig{{Key: c02U, ClaimID: "deadbee1" + strings.Repeat("0", 56), Forge: "other-content", CertOf: "pki:leaf1"}, {Key: "pki:leaf1", WithCert: true}}}
 		},
 		truth: func(c c02Case) []string {
@@ -158,6 +162,15 @@ func init() {
 			}
 			return nil
 		}})
+	// the honest link of A2 copied under the upper-cased short id, key id upper-cased in the entry
+	// (a signature does not cover its own key id field): still only functionary A2
+	c02Register(c02Kind{name: "dup-upper:" + c02A2,
+		file: func(b *c02Builder) hx.WMetaFile {
+			up := strings.ToUpper(hx.PoolKey(c02A2).KeyID)
+			f := c02File("dup-upper", "hex:"+up, "legacy", hx.WSig{Key: c02A2, ClaimID: up})
+			return f
+		},
+		truth: func(c c02Case) []string { return []string{"key:" + c02A2} }})
 	c02Register(c02Kind{name: "multisig:" + c02A2 + "+" + c02A1,
 		file: func(b *c02Builder) hx.WMetaFile {
 			return c02File("multisig", c02A2, "legacy", hx.WSig{Key: c02A2}, hx.WSig{Key: c02A1})
@@ -185,7 +198,7 @@ func init() {
 					"nullparts": `{"signed": null, "signatures": null}`,
 				}[g]
 				id := map[string]string{"garbage": "bbbbbbb1", "truncated": "bbbbbbb2", "wrongtype": "bbbbbbb3", "nullparts": "bbbbbbb4"}[g]
-				return hx.WMetaFile{Name: hx.LinkFileName("s0", id), Raw: raw}
+				return hx.WMetaFile{Name: hx.LinkFileName(c02Step, id), Raw: raw}
 			},
 			truth: func(c c02Case) []string { return nil }})
 	}
@@ -212,6 +225,10 @@ func c02PKI() hx.PKISpec {
 // c02World builds the world; file names of certificate links need the leaf key ids, which are
 // known once the PKI is built, so names are resolved against a first PKI build.
 func c02World(c c02Case) (hx.World, map[string][]string, error) {
+	c02Step = "s0"
+	if c.StepName != "" {
+		c02Step = c.StepName
+	}
 	pki := c02PKI()
 	certs, err := hx.BuildPKI(pki)
 	if err != nil {
@@ -242,7 +259,7 @@ func c02World(c c02Case) (hx.World, map[string][]string, error) {
 		}
 		constraint.Roots = ids
 	}
-	s0 := hx.MStep{Type: "step", Name: "s0", ExpMat: [][]string{{"ALLOW", "*"}}, ExpProd: [][]string{{"ALLOW", "*"}},
+	s0 := hx.MStep{Type: "step", Name: c02Step, ExpMat: [][]string{{"ALLOW", "*"}}, ExpProd: [][]string{{"ALLOW", "*"}},
 		PubKeys:     []string{hx.PoolKey(c02A1).KeyID, hx.PoolKey(c02A2).KeyID, hx.PoolKey(c02A3).KeyID, hx.PoolKey(c02L).KeyID},
 		Constraints: []hx.MConstraint{constraint}, ExpCommand: []string{"build"}, Threshold: c.Threshold}
 	lay.Steps = []hx.MStep{s0}
@@ -262,7 +279,7 @@ func c02World(c c02Case) (hx.World, map[string][]string, error) {
 		}
 		f := k.file(b)
 		if strings.HasPrefix(f.Name, "pki:") {
-			f.Name = hx.LinkFileName("s0", certs[strings.TrimPrefix(f.Name, "pki:")].Key.KeyID)
+			f.Name = hx.LinkFileName(c02Step, certs[strings.TrimPrefix(f.Name, "pki:")].Key.KeyID)
 		}
 		if f.Tamper != nil {
 			// change the recorded product digest after signing
@@ -357,7 +374,7 @@ func c02Eval(c c02Case, r *hx.Rec) error {
 	}
 	i := 0
 	for _, f := range w.Links {
-		if !strings.HasPrefix(f.Name, "s0.") {
+		if !strings.HasPrefix(f.Name, c02Step+".") || (f.Meta.Link != nil && f.Meta.Link.Name != c02Step) {
 			continue
 		}
 		files = append(files, f.Name)
@@ -391,7 +408,8 @@ func c02Eval(c c02Case, r *hx.Rec) error {
 	sort.Strings(sorted)
 	r.Label("second_step=%v/first=%v", c.SecondStep, c.SecondStep && c.SecondFirst)
 	r.Label("foreign_intermediate=%v", c.ForeignInter)
-	r.Key("%d|%v%v%v%v|%s|%s|%s", c.Threshold, c.SecondStep, c.SecondFirst, c.ForeignInter, c.MultiValued, c.LayoutWrapper, c.Intermediate, strings.Join(sorted, ","))
+	r.Label("stepname=%q", c.StepName)
+	r.Key("%d|%v%v%v%v%s|%s|%s|%s", c.Threshold, c.SecondStep, c.SecondFirst, c.ForeignInter, c.MultiValued, c.StepName, c.LayoutWrapper, c.Intermediate, strings.Join(sorted, ","))
 
 	var first *bool
 	for rep := 0; rep < c.Repeats; rep++ {
@@ -457,7 +475,7 @@ func c02Direct(b *hx.Built, c c02Case, truth map[string][]string) (err error) {
 		}
 	}
 	var counted []string
-	for id, m := range verified["s0"] {
+	for id, m := range verified[c02Step] {
 		l, ok := m.GetPayload().(intoto.Link)
 		if !ok {
 			return fmt.Errorf("counted entry %s is not a link", id)
@@ -487,6 +505,7 @@ func c02Gen(t *rapid.T) c02Case {
 		SecondFirst:   rapid.Bool().Draw(t, "secondfirst"),
 		ForeignInter:  rapid.Bool().Draw(t, "foreigninter"),
 		MultiValued:   rapid.Bool().Draw(t, "multivalued"),
+		StepName:      rapid.SampledFrom([]string{"", "", "build.v2", "release-1.0.x", "Build", "x"}).Draw(t, "stepname"),
 	}
 	c.Kinds = rapid.SliceOfNDistinct(rapid.SampledFrom(c02KindNames), 0, 5, rapid.ID[string]).Draw(t, "kinds")
 	return c
@@ -500,7 +519,7 @@ func c02Exhaustive(t *testing.T) {
 		"honest-cert:leaf1", "honest-cert:leaf2",
 		"tampered:" + c02A1, "unsigned", "unauthorised-key", "other-step-key", "listed-not-defined",
 		"bad-cert:leaf-expired", "bad-cert:leaf-foreign", "bad-cert:leaf-mismatch",
-		"dup-key:" + c02A1, "dup-cert:leaf1", "multisig:" + c02A2 + "+" + c02A1, "forged-id:" + c02A3, "junk:garbage",
+		"dup-key:" + c02A1, "dup-cert:leaf1", "dup-upper:" + c02A2, "multisig:" + c02A2 + "+" + c02A1, "forged-id:" + c02A3, "junk:garbage",
 	}
 	if hx.Thorough() {
 		alpha = c02KindNames
@@ -519,7 +538,7 @@ func c02Exhaustive(t *testing.T) {
 				continue
 			}
 			c := c02Case{Threshold: th, SecondStep: n%3 == 0, LayoutWrapper: []string{"legacy", "dsse"}[n%2], Intermediate: []string{"layout", "caller"}[(n/2)%2],
-				Kinds: append([]string{}, cur...), Repeats: hx.Pick(6, 16), SecondFirst: n%5 < 2, ForeignInter: (n/3)%2 == 0, MultiValued: (n/7)%2 == 0}
+				Kinds: append([]string{}, cur...), Repeats: hx.Pick(6, 16), SecondFirst: n%5 < 2, ForeignInter: (n/3)%2 == 0, MultiValued: (n/7)%2 == 0, StepName: []string{"", "build.v2", "", "release-1.0.x"}[(n/11)%4]}
 			r := &hx.Rec{}
 			err := c02Eval(c, r)
 			r.Label("enumerated")
